@@ -59,6 +59,13 @@ type Case struct {
 	Shown   []string `json:"shown"`
 	Changes bool     `json:"changes"`
 	Hostile int      `json:"hostile"` // which hostile string set
+	Playl   bool     `json:"playlist"`
+	// byname
+	Kinds   []string `json:"kinds"`
+	Rank    []int    `json:"rank"`
+	Probe   string   `json:"probe"`
+	ExpectK int      `json:"expectk"`
+	NFiles  int      `json:"nfiles"`
 }
 
 type Viol struct {
@@ -438,9 +445,32 @@ func fuseLookup(c *Case, l *live, files []mktor.File, offsets []int64, viol func
 			return
 		}
 		got := map[string]bool{}
+		dirs, fileN := map[string]int{}, map[string]int{}
 		for _, e := range ents {
 			if e.Name != "." && e.Name != ".." {
+				if e.Type == bfuse.DT_Dir {
+					dirs[e.Name]++
+				} else {
+					fileN[e.Name]++
+				}
 				got[e.Name] = true
+			}
+		}
+		// a sub-directory is listed once; a file as often as the table holds that very path
+		for n, k := range dirs {
+			if k > 1 {
+				viol("fuse-listing-duplicate", fmt.Sprintf("the FUSE directory lists the sub-directory %q %d times", n, k))
+			}
+		}
+		for n, k := range fileN {
+			have := 0
+			for _, f := range c.Files {
+				if len(f) == len(c.P)+1 && f[len(c.P)] == n && pathURL(f[:len(c.P)]) == pathURL(c.P) {
+					have++
+				}
+			}
+			if k > have && have > 0 {
+				viol("fuse-listing-duplicate", fmt.Sprintf("the FUSE directory lists the file %q %d times, the table holds it %d times", n, k, have))
 			}
 		}
 		want := map[string]bool{}
@@ -489,6 +519,122 @@ func fuseLookup(c *Case, l *live, files []mktor.File, offsets []int64, viol func
 	}
 	if rl, ok := hd.(fs.HandleReleaser); ok {
 		rl.Release(ctx, &bfuse.ReleaseRequest{})
+	}
+}
+
+// runByName: several torrents with the same name; the FUSE root must resolve
+// the name to the same torrent every time, the one Namespace!ByName names.
+func runByName(c *Case, out *Out) {
+	setup()
+	viol := func(key, what string) {
+		if len(out.Violations) < 4 {
+			out.Violations = append(out.Violations, Viol{"C20", key, fmt.Sprintf("%s (kinds %v, hash ranks %v, probe %q)", what, c.Kinds, c.Rank, c.Probe)})
+		}
+	}
+	n := len(c.Kinds)
+	dup := fmt.Sprintf("dup %d", c.ID)
+	other := fmt.Sprintf("other %d", c.ID)
+	// create n torrents of distinct content, sort them by their real hashes, hand them out by rank
+	mk := func(kind, name string, k int, seed uint64) mktor.Spec {
+		if kind == "single" {
+			return mktor.Spec{Name: name, PieceLen: 2 * CS, Length: int64(30000 + 1000*k), Seed: seed}
+		}
+		return mktor.Spec{Name: name, PieceLen: 2 * CS, Seed: seed, Files: []mktor.File{{Path: []string{fmt.Sprintf("f%d.bin", k)}, Length: int64(30000 + 1000*k)}, {Path: []string{"common.txt"}, Length: 100}}}
+	}
+	// the hash depends on kind and k, so candidates are built per position and re-ranked:
+	// try seeds until the real hash order matches the requested ranks
+	var lives []*live
+	defer func() {
+		for _, l := range lives {
+			l.stop()
+		}
+	}()
+	var specs []mktor.Spec
+	found := false
+	for attempt := uint64(0); attempt < 2000 && !found; attempt++ {
+		specs = specs[:0]
+		var hs []string
+		for k := 0; k < n; k++ {
+			sp := mk(c.Kinds[k], dup, k+1, uint64(c.ID)*131+attempt*7+uint64(k))
+			t, err := mktor.New(sp, "")
+			if err != nil {
+				out.Note = "torrent: " + err.Error()
+				return
+			}
+			specs = append(specs, sp)
+			hs = append(hs, string(t.Hash))
+		}
+		found = true
+		for i := 0; i < n; i++ {
+			for j := 0; j < n; j++ {
+				if (c.Rank[i] < c.Rank[j]) != (hs[i] < hs[j]) && i != j {
+					found = false
+				}
+			}
+		}
+	}
+	if !found {
+		out.Note = "no seeds give the requested hash order"
+		return
+	}
+	for _, sp := range specs {
+		l, err := start(sp, true)
+		if err != nil {
+			out.Note = "torrent: " + err.Error()
+			return
+		}
+		lives = append(lives, l)
+	}
+	lo, err := start(mk("multi", other, 9, uint64(c.ID)*977+5), true)
+	if err != nil {
+		out.Note = "torrent: " + err.Error()
+		return
+	}
+	lives = append(lives, lo)
+	probe := map[string]string{"dup": dup, "other": other, "absent": fmt.Sprintf("absent %d", c.ID)}[c.Probe]
+	ctx := context.Background()
+	root := fuse.VerifRoot()
+	identify := func(node fs.Node) int {
+		var a bfuse.Attr
+		if err := node.Attr(ctx, &a); err != nil {
+			return -1
+		}
+		if !a.Mode.IsDir() {
+			return int(a.Size-30000) / 1000
+		}
+		ents, err := node.(fs.HandleReadDirAller).ReadDirAll(ctx)
+		if err != nil {
+			return -1
+		}
+		for _, e := range ents {
+			var k int
+			if _, err := fmt.Sscanf(e.Name, "f%d.bin", &k); err == nil {
+				return k
+			}
+		}
+		return -1
+	}
+	want := c.ExpectK
+	if want == n+1 {
+		want = 9
+	}
+	seen := map[int]int{}
+	for i := 0; i < 300; i++ {
+		node, err := root.(fs.NodeStringLookuper).Lookup(ctx, probe)
+		if err != nil {
+			seen[0]++
+			continue
+		}
+		seen[identify(node)]++
+	}
+	if len(seen) != 1 {
+		viol("byname-nondeterministic", fmt.Sprintf("300 FUSE root lookups of the same name resolved to different torrents: %v", seen))
+		return
+	}
+	for k := range seen {
+		if k != want {
+			viol("byname-wrong-torrent", fmt.Sprintf("the FUSE root resolves the name to torrent %d, the specification (least info-hash) says %d", k, want))
+		}
 	}
 }
 
@@ -566,7 +712,19 @@ func runWebUI(c *Case, out *Out) {
 	}
 	ver := hostileFor("known-version", set)
 	l.t.AddKnown(netip.MustParseAddrPort("192.0.2.33:6881"), hash.Hash([]byte("-XX0001-abcdefghijkl")), ver, known.Seen)
+	// a peer that announced no version: the page falls back on the client code cut from its id (6 bytes)
+	idcode := [][2]string{{`<b>&'"`, "peer-id-code"}, {`"><i a`, "peer-id-code"}, {`<!--ab`, "peer-id-code"}}[set%3][0]
+	l.t.AddKnown(netip.MustParseAddrPort("192.0.2.34:6881"), hash.Hash([]byte("-"+idcode+"-mnopqrstuvwx")), "", known.Seen)
 	l.t.GetStats()
+	// a single-file torrent, whose name is the file name; it contains a line break
+	sname := "S " + hostileFor("single-name", set) + " line1\nline2.mp3"
+	ls, err := start(mktor.Spec{Name: sname, PieceLen: 2 * CS, Seed: uint64(c.ID) + 6, Length: 40000}, true)
+	if err != nil {
+		out.Note = "single-file torrent: " + err.Error()
+		return
+	}
+	defer ls.stop()
+	hs := ls.t.Hash.String()
 	h := l.t.Hash.String()
 	host := map[string]string{"localhost:p": "localhost:8088", "127.0.0.1:p": "127.0.0.1:8088", "[::1]:p": "[::1]:8088", "evil.example:p": "evil.example:8088",
 		"evil.example": "evil.example", "localhost.evil.example:p": "localhost.evil.example:8088", "LOCALHOST:p": "LOCALHOST:8088", "empty": ""}[c.Host]
@@ -596,6 +754,12 @@ func runWebUI(c *Case, out *Out) {
 		target = "/" + h + "/" + url.PathEscape(dirc) + "/"
 	case "file":
 		target = "/" + h + "/plain.txt"
+	case "single-dir":
+		target = "/" + hs + "/"
+	case "single-playlist":
+		target = "/" + hs + ".m3u"
+	case "single-dirplaylist":
+		target = "/" + hs + "/?playlist"
 	}
 	if c.Method == "GET" || c.Method == "HEAD" {
 		if body != "" {
@@ -629,7 +793,7 @@ func runWebUI(c *Case, out *Out) {
 		if rec.Code < 400 {
 			viol("foreign-host-served", fmt.Sprintf("answered %d to a request with a foreign Host header", rec.Code))
 		}
-		if strings.Contains(page, h) || strings.Contains(page, "plain.txt") || (rec.Code == 200 && len(page) > 0 && c.Route == "file") {
+		if strings.Contains(page, h) || strings.Contains(page, hs) || strings.Contains(page, "plain.txt") || (rec.Code == 200 && len(page) > 0 && c.Route == "file") {
 			viol("foreign-host-reads", "the answer to a request with a foreign Host header carries torrent data")
 		}
 		if changed {
@@ -642,7 +806,10 @@ func runWebUI(c *Case, out *Out) {
 	}
 	// taint: hostile sources never appear raw in HTML; the escaped form appears where the page shows them
 	if strings.HasPrefix(rec.Header().Get("Content-Type"), "text/html") && rec.Code == 200 && c.Method == "GET" {
-		for _, src := range []string{"name", "dir-component", "file-component", "tracker-url", "tracker-error", "webseed-url", "known-version"} {
+		if strings.Contains(page, idcode) {
+			viol("unescaped:peer-id-code", fmt.Sprintf("the client code %q cut from a peer id appears unescaped in the page", idcode))
+		}
+		for _, src := range []string{"name", "dir-component", "file-component", "tracker-url", "tracker-error", "webseed-url", "known-version", "single-name"} {
 			raw := hostileFor(src, set)
 			if strings.Contains(page, raw) {
 				viol("unescaped:"+src, fmt.Sprintf("the %s %q appears unescaped in the page", src, raw))
@@ -650,6 +817,9 @@ func runWebUI(c *Case, out *Out) {
 		}
 		for _, src := range c.Shown {
 			raw := hostileFor(src, set)
+			if src == "peer-id-code" {
+				raw = idcode
+			}
 			esc := html.EscapeString(raw)
 			qesc := url.PathEscape(raw)
 			if !strings.Contains(page, esc) && !strings.Contains(page, qesc) && !strings.Contains(page, raw) {
@@ -657,18 +827,14 @@ func runWebUI(c *Case, out *Out) {
 			}
 		}
 	}
-	if (c.Route == "playlist" || c.Route == "subdir") && rec.Code == 200 && c.Method == "GET" {
+	if c.Playl && rec.Code == 200 && c.Method == "GET" {
 		pl := page
 		if c.Route == "subdir" {
 			pl = do("GET", target+"?playlist", host, "").Body.String()
 		}
 		lines := strings.Split(strings.TrimRight(pl, "\n"), "\n")
-		nfiles := 3
-		if c.Route == "subdir" {
-			nfiles = 2
-		}
-		if len(lines) != 1+2*nfiles {
-			viol("playlist-injection", fmt.Sprintf("the playlist of %d files has %d lines (a file name containing a line break adds lines): %q", nfiles, len(lines), trunc(pl)))
+		if len(lines) != 1+2*c.NFiles {
+			viol("playlist-injection", fmt.Sprintf("the playlist of %d files has %d lines (a name containing a line break adds lines): %q", c.NFiles, len(lines), trunc(pl)))
 		}
 	}
 	_ = peer.TorConf{}
@@ -691,6 +857,8 @@ func Handle(in []byte) any {
 		runNamespace(&c, out)
 	case "webui":
 		runWebUI(&c, out)
+	case "byname":
+		runByName(&c, out)
 	default:
 		out.Note = "unknown kind"
 	}
